@@ -305,3 +305,17 @@ Proof.
     { unfold get_downlink_channel. rewrite Hdn. apply (Hget (c_tab c)). exact H2. }
     exists d. rewrite Hidx, Hfr, <- Hf0. repeat split; auto.
 Qed.
+
+(* ---- C12: the RX1 frequency of ANY frequency, whatever the channel lists ------------------- *)
+
+Lemma kind_region_check_ok : kind_region_check = true.
+Proof. vm_compute. reflexivity. Qed.
+
+Lemma rx1_frequency_any c : In c band_configs -> forall reg, region_of (c_name c) = Some reg ->
+  forall (t : tables) (f : Z), rx1_frequency_any_ok reg f (get_rx1_frequency (with_tables c t) f) = true.
+Proof.
+  intros Hc reg Hreg t f. pose proof kind_region_check_ok as H. unfold kind_region_check in H.
+  rewrite forallb_forall in H. specialize (H c Hc). rewrite Hreg in H. apply Bool.eqb_prop in H.
+  unfold rx1_frequency_any_ok, get_rx1_frequency, with_tables. cbn [c_kind].
+  destruct reg; try reflexivity; destruct (c_kind c); cbn in H; try discriminate; cbn; now rewrite Z.eqb_refl.
+Qed.
